@@ -36,6 +36,35 @@ CHECKS = {
               "fresh process on a probe module whose planted violations reveal each option."),
         note="ASCII values (Go trims/cases by Unicode; non-ASCII inputs are exercised but outside the theorem). strconv.ParseBool and the flag package (every occurrence parsed, last wins, bare = true) are library models.",
         technique="Coq proof (string lemmas, idempotence of list parsing) + grid correspondence in-process and through the real binary"),
+    "C01": dict(
+        text=("Theorem (Coq, every package tree, every facts set, every suppression function): an IMM diagnostic is reported iff some statement of some top-level declaration of a non-excluded "
+              "file is one of the six write forms (x.f = v, x.f[i] = v, x.f op= v, x.f++/--, *r = v, *r++ with r the receiver object) on a type that resolves through aliases and one pointer to a "
+              "defined type carrying @immutable in the package or a direct import, the field not @mutable, the enclosing declaration not a @constructor function of the type in the type's own "
+              "package, and the diagnostic not suppressed (imm_reports, proved equivalent to the executable per-node check; the stateful walk proved equal to a per-node check under the declaration's "
+              "context, so placement/nesting is irrelevant); index lookups proved to mean the annotations. The model is run against the real binary on every generated world (whole-module runs, "
+              "compared by file/line/code under two configurations)."),
+        note="Fragment: non-generic defined types, direct imports, one candidate per line; go/parser + go/types facts are inputs serialised verbatim by `ggx skel`; well-formedness (no FuncDecl nested in a declaration) evaluated by the model on every serialised package.",
+        technique="Coq proof (walk = per-node relation from the property text) + model/implementation correspondence on generated multi-package programs"),
+    "C02": dict(
+        text=("Theorem (Coq): a CTOR diagnostic is reported iff some node of some top-level declaration of a non-excluded file is a composite literal (CTOR01; T{}, &T{}, elided elements via the "
+              "recorded type), a one-argument new(e) (CTOR02), or a non-blank name of a var spec without initialiser whose type is the defined type itself (CTOR03), of a type with a non-empty "
+              "@constructor list in the package or a direct import, outside those functions of the type's own package (a package-level declaration is in no function), and not suppressed. Same "
+              "correspondence as C01."),
+        note="Fragment: non-generic defined types, direct imports, one candidate per line; go/parser + go/types facts are inputs serialised verbatim by `ggx skel`; well-formedness (no FuncDecl nested in a declaration) evaluated by the model on every serialised package.",
+        technique="Coq proof (walk = per-node relation from the property text) + model/implementation correspondence on generated multi-package programs"),
+    "C03": dict(
+        text=("Theorems (Coq): per file the TONL diagnostics are nothing for *_test.go, else the candidates in walk order filtered by ignore-first-then-once-per-(package,type): reported iff "
+              "unsuppressed and (no key, or the FIRST unsuppressed candidate of its key) — proved for every candidate list; only the root of a declaration can be pruned and the body of a "
+              "@testonly function/method yields nothing; a bare callee counts only if it resolves to an annotated package-level function object (name sharing never reported); the three indices "
+              "mean the annotations, same package and direct imports alike. Same correspondence as C01."),
+        note="Fragment: non-generic defined types, direct imports, one candidate per line; go/parser + go/types facts are inputs serialised verbatim by `ggx skel`; well-formedness (no FuncDecl nested in a declaration) evaluated by the model on every serialised package. The receiver field of a non-@testonly method on a @testonly type, promoted methods and dot-imports are left unspecified (DESIGN 5.1).",
+        technique="Coq proof (first-unsuppressed-use characterisation of the dedup fold, pruning lemma) + model/implementation correspondence"),
+    "C04": dict(
+        text=("Theorems (Coq): the attachment list of an item is the union of all its @packageonly lists (own + direct-import facts); a reference is a candidate iff the item is declared in another "
+              "package, annotated, and neither the using package's path nor its name is in the union (proved with the exact message for functions; types/methods have the same executable shape); "
+              "references from the declaring package are never candidates; per file ignore-first, PKGO01 once per (package,type), PKGO02/03 each (same dedup theorem as C03). Same correspondence as C01."),
+        note="Fragment: non-generic defined types, direct imports, one candidate per line; go/parser + go/types facts are inputs serialised verbatim by `ggx skel`; well-formedness (no FuncDecl nested in a declaration) evaluated by the model on every serialised package. Dot-imports, fields of @packageonly structs and promoted methods are left unspecified (DESIGN 5.1).",
+        technique="Coq proof (union/denied characterisation, dedup theorem) + model/implementation correspondence"),
 }
 
 PENDING_REASON = "check under construction in this round (designed in DESIGN.md section 5); not yet claimed"
